@@ -33,9 +33,13 @@ func (g *Gen) calleeContract(cc *ssa.CallCommon) *Contract {
 	}
 	switch f := cc.Value.(type) {
 	case *ssa.Function:
-		return g.world.contractFor(f)
+		return g.world.contractForIn(f, g.fn)
 	case *ssa.MakeClosure:
 		return g.world.contractFor(f.Fn.(*ssa.Function))
+	case *ssa.Parameter:
+		if g.c != nil && g.c.DynCallee != nil {
+			return g.c.DynCallee[f.Name()]
+		}
 	}
 	return nil
 }
@@ -88,7 +92,8 @@ func (g *Gen) run() (err error) {
 		g.emit("(declare-const " + n + " " + sort + ")")
 		g.emit("(assert " + g.wf(n, fv.Type(), alloc0) + ")")
 		g.vals[fv] = Val{S: n, Sort: sort, G: fv.Type()}
-		g.params[fv.Name()] = Val{S: n, Sort: sort, G: fv.Type()}
+		g.params[fv.Name()] = g.lazyCell(Val{S: n, Sort: sort, G: fv.Type()})
+		g.paramSMT = append(g.paramSMT, n)
 	}
 	// lemmas/axioms this function uses
 	g.emitUses(st)
@@ -502,6 +507,23 @@ func (g *Gen) scopeAt(b *ssa.BasicBlock, edge *ssa.BasicBlock, st *State) map[st
 	return vars
 }
 
+// lazyCell: a pointer to a variable cell, named in contracts by the variable it holds.
+func (g *Gen) lazyCell(ptr Val) Val {
+	pt, ok := ptr.G.Underlying().(*types.Pointer)
+	if !ok || ptr.Loc != nil {
+		return ptr
+	}
+	et := pt.Elem()
+	if _, isStruct := et.Underlying().(*types.Struct); isStruct {
+		return ptr
+	}
+	if _, isArr := et.Underlying().(*types.Array); isArr {
+		return ptr
+	}
+	s := g.m.sortOf(et)
+	return Val{Loc: &Loc{Kind: "cell", Base: ptr.S, Comp: g.m.compCell(s), T: et}, Sort: s, G: et, Lazy: true}
+}
+
 func (g *Gen) tryVal(v ssa.Value) (r Val, ok bool) {
 	defer func() {
 		if recover() != nil {
@@ -530,6 +552,13 @@ func (g *Gen) scopeBlock(b *ssa.BasicBlock, vars map[string]Val, st *State) {
 				}
 			}
 		case *ssa.Alloc:
+			if x.Comment != "" && x.Heap && !isArrayAlloc(x) {
+				if pv, ok := g.vals[x]; ok {
+					if lv := g.lazyCell(pv); lv.Lazy {
+						vars[x.Comment] = lv
+					}
+				}
+			}
 			if x.Comment != "" && !x.Heap && !isArrayAlloc(x) {
 				if t, ok := st.locals[x]; ok {
 					et := x.Type().(*types.Pointer).Elem()
